@@ -429,10 +429,34 @@ class UTable:
         return val
 
 
-class UConstrained:
-    """an arbitrary smooth inequality-constrained problem behind the ConstrainedObjective interface: constraint(x),
-    ncp(x; lam), gradient(x; lam, kappa), total_residual(x; lam, kappa) are uninterpreted (fresh reals per distinct
-    argument tuple); lam and kappa are plain attributes exactly as on the real class"""
+class _PublicState:
+    """state attributes of the real ConstrainedObjective that solver code may legitimately read or assign: p, lam, kappa,
+    constraintKappa (frozen at construction), scaling / invScaling (Objective base: 1.0). `kappa` accepts any array and
+    always offers jax's `.at[...]` functional-update interface"""
+    scaling = 1.0
+    invScaling = 1.0
+    precondStrategy = None
+
+    @property
+    def kappa(self):
+        return self._kappa
+
+    @kappa.setter
+    def kappa(self, v):
+        self._kappa = kvec(onp.array(onp.asarray(v)))
+
+    def reset_kappa(self):
+        self.log.append(('reset_kappa', None, self.p))
+        self.kappa = onp.array(self.constraintKappa)
+
+
+class UConstrained(_PublicState):
+    """an arbitrary smooth inequality-constrained problem behind the FULL public ConstrainedObjective interface: every
+    evaluation method (value, gradient*, hessian*, jacobian*, constraint, ncp, ncp_hessian, constrained_*, total_residual,
+    apply_precond, ...) is an uninterpreted function of its arguments and of the state it reads on the real class (fresh
+    reals per distinct argument tuple, functionally consistent); lam, kappa, p are plain attributes exactly as on the real
+    class; constraintKappa is an independent symbolic vector with 0 < constraintKappa <= kappa (kappa starts there at
+    construction / reset_kappa and, by the property, never decreases)"""
 
     def __init__(self, ex, n, m, log=None, lam_nonneg=False):
         self.ex, self.n, self.m = ex, n, m
@@ -441,12 +465,16 @@ class UConstrained:
         self.p = 'P_OLD'
         self.lam = ex.vec('lam', m)
         k = ex.vec('kappa', m)
+        ck = ex.vec('constraintKappa', m)
         for i in range(m):
-            ex.assume(k[i] > 0)
+            ex.assume(ck[i] > 0)
+            ex.assume(ck[i] <= k[i])
             if lam_nonneg:
                 ex.assume(self.lam[i] >= 0)
-        self.kappa = kvec(k)
+        self.kappa = k
+        self.constraintKappa = ck
 
+    # ---- the methods the AL solver reads (state dependence as on the real class)
     def constraint(self, x):
         return self.U('c', [x], self.m)
 
@@ -464,10 +492,50 @@ class UConstrained:
         return r
 
     def constrained_residual(self, xl):
-        raise px.Unsupported('constrained_residual is only handed to the (stubbed) linear_update')
+        return self.U('res', [xl, self.kappa], self.n + self.m)
 
     def update_precond(self, x):
         self.log.append(('update_precond', x, self.p, onp.array(x)))
+
+    # ---- the rest of the public interface (uninterpreted; linearity of the operator-vector products is not modelled)
+    def value(self, x):
+        return self.U('value', [x, self.lam, self.kappa], 1)[0]
+
+    def gradient_p(self, x):
+        return self.U('grad_p', [x, self.lam, self.kappa], self.n)
+
+    def gradient_l(self, x):
+        return self.U('grad_l', [x, self.lam, self.kappa], self.m)
+
+    def hessian(self, x):
+        return self.U('hess', [x, self.lam, self.kappa], self.n * self.n).reshape(self.n, self.n)
+
+    def hessian_vec(self, x, vx):
+        return self.U('hess_vec', [x, self.lam, self.kappa, vx], self.n)
+
+    def jacobian_p_vec(self, x, vp):
+        return self.U('jac_p_vec', [x, self.lam, self.kappa, vp], self.n)
+
+    def jacobian_l_vec(self, x, vl):
+        return self.U('jac_l_vec', [x, self.lam, self.kappa, vl], self.n)
+
+    def ncp_hessian(self, x):
+        return self.U('ncp_hess', [x, self.lam], self.m)
+
+    def constrained_jacobian_vec(self, xl, vxl):
+        return self.U('cjac_vec', [xl, self.kappa, vxl], self.n + self.m)
+
+    def constrained_jacobian_p_vec(self, xl, vp):
+        return self.U('cjac_p_vec', [xl, self.kappa, vp], self.n + self.m)
+
+    def apply_precond(self, vx):
+        return self.U('precond', [vx], self.n)
+
+    def multiply_by_approx_hessian(self, vx):
+        return self.U('approx_hess', [vx], self.n)
+
+    def check_stability(self, x):
+        self.log.append(('check_stability', x, self.p))
 
 
 def al_settings_sym(ex, mod, max_al_iters=100, newton_only=None, second_order=None):
@@ -542,7 +610,7 @@ def make_substep_harness(n, m):
             ex.assume(ncpOld[i] >= 0)
         xs = ex.vec('xSub', n)
         succ = ex.bool('solverSuccess')
-        lam0, kap0 = onp.array(obj.lam), onp.array(obj.kappa)
+        lam0, kap0, ck0 = onp.array(obj.lam), onp.array(obj.kappa), obj.constraintKappa
         seen = {}
 
         def sub(o, x, settings, cb):
@@ -570,21 +638,24 @@ def make_substep_harness(n, m):
             ex.goal('penalty_never_decreases', Le(px.unwrap(kap0[i]), px.unwrap(kap1[i])))
             ex.goal('penalty_stays_positive', Lt(0.0, px.unwrap(kap1[i]), scale=0.0))
             ex.goal('penalty_unchanged_without_solver_success', Eq(px.unwrap(kap1[i]), px.unwrap(kap0[i]), when=sym.v_not(_zb(succ))))
+            ex.goal('inv_penalty_at_least_construction_penalty', Le(px.unwrap(ck0[i]), px.unwrap(kap1[i])))
+        ex.goal('construction_penalty_not_modified', Holds(obj.constraintKappa is ck0))
     return fn
 
 
 O2_GOALS = ['sub_solver_called_on_the_objective_from_the_current_point', 'returns_the_sub_solver_point_and_flag',
             'multiplier_update_is_max_lam_minus_kappa_c_at_new_point', 'multipliers_nonnegative_after',
             'ncp_error_is_abs_ncp_at_new_point_with_updated_multipliers', 'penalty_grows_by_penalty_scaling_iff_poor_progress_and_solver_success',
-            'penalty_never_decreases', 'penalty_stays_positive', 'penalty_unchanged_without_solver_success']
+            'penalty_never_decreases', 'penalty_stays_positive', 'penalty_unchanged_without_solver_success',
+            'inv_penalty_at_least_construction_penalty', 'construction_penalty_not_modified']
 
 
 def _o2_notes(h, n, m):
     h.encoded('optimism.AlSolver:solve_sub_step (real source)')
-    h.bounds('n=%d unknowns, m=%d constraints; lam: all reals; kappa > 0; constraint / ncp values: arbitrary (uninterpreted functions of their arguments); '
+    h.bounds('n=%d unknowns, m=%d constraints; lam: all reals; kappa >= constraintKappa > 0 (both symbolic); constraint / ncp values: arbitrary (uninterpreted functions of their arguments); '
              'previous ncp error >= 0; settings: %s' % (n, m, AL_ADMISSIBLE))
     h.assume_note('stub: the sub-problem solver returns an arbitrary point and an arbitrary success flag (its guarantees are C01/C05)',
-                  'stub: objective = arbitrary problem (constraint(x), ncp(x; lam) uninterpreted, functionally consistent); kappa supports jax\'s .at[mask].set(v)',
+                  'stub: objective = arbitrary problem behind the full public ConstrainedObjective interface (every evaluation method uninterpreted, functionally consistent; lam, kappa, p, constraintKappa attributes); kappa supports jax\'s .at[mask].set(v)',
                   'penalty monotonicity is claimed for penalty_scaling >= 1 and kappa > 0 only (both assumed)')
     h.outside('penalty_scaling < 1 or non-positive penalties (inadmissible settings)')
 
@@ -665,7 +736,7 @@ def make_al_step_harness(n, m, it, newton_only, second_order):
             keep['prologue_p'] = obj.p
             del log[:]
             return ov
-        kap0 = onp.array(obj.kappa)
+        kap0, ck0 = onp.array(obj.kappa), obj.constraintKappa
         kind, val, loc = step({}, havoc, obj, x_in, pNew, S, sub, callback, 'SUBCB', sub_solver, False, False, True)
         lam_pre = keep.get('lam_pre')
         x0, err0 = keep['pre']['x'], keep['pre']['errorNorm']
@@ -747,6 +818,8 @@ def make_al_step_harness(n, m, it, newton_only, second_order):
         # ---- penalties
         for i in range(m):
             ex.goal('penalty_never_decreases', Le(px.unwrap(kap0[i]), px.unwrap(obj.kappa[i])))
+            ex.goal('inv_penalty_at_least_construction_penalty', Le(px.unwrap(ck0[i]), px.unwrap(obj.kappa[i])))
+        ex.goal('construction_penalty_not_modified', Holds(obj.constraintKappa is ck0))
         # ---- exits
         if kind == 'return':
             ex.goal('never_returns_in_newton_only_mode', Holds(not newton_only))
@@ -780,11 +853,11 @@ def make_al_step_harness(n, m, it, newton_only, second_order):
 def _o4_notes(h, n, m):
     h.encoded('optimism.AlSolver:augmented_lagrange_solve (prologue + body of `for it`, extracted by AST from the current source)',
               'optimism.AlSolver:solve_sub_step (real source)', 'optimism.EquationSolver:settings_with_new_tol')
-    h.bounds('n=%d unknowns, m=%d constraints; loop-head state: arbitrary x, lam (any sign), kappa > 0, ncpError >= 0, errorNorm >= 0; iteration index it in {0,1,2,3,7}; '
+    h.bounds('n=%d unknowns, m=%d constraints; loop-head state: arbitrary x, lam (any sign), kappa >= constraintKappa > 0, ncpError >= 0, errorNorm >= 0; iteration index it in {0,1,2,3,7}; '
              'settings: %s' % (n, m, AL_ADMISSIBLE))
     h.assume_note('stub: linear_update (GMRES second-order step) returns an arbitrary (dx, dl, exit code)',
                   'stub: the sub-problem solver returns an arbitrary point and flag (C01/C05)',
-                  'stub: objective = arbitrary problem: constraint, ncp, gradient, total_residual are uninterpreted functions of (x, lam, kappa), functionally consistent (Ackermann)',
+                  'stub: objective = arbitrary problem behind the full public ConstrainedObjective interface: every evaluation method is an uninterpreted function of its arguments and (lam, kappa), functionally consistent (Ackermann); constraintKappa is an independent symbolic vector with 0 < constraintKappa <= kappa',
                   'model: AlSolver.norm of a boolean is 1.0/0.0 (jnp.linalg.norm(True) == 1.0, ground fact), of a vector sqrt(v.v)',
                   'inductive step: the pre-state is any state, reachable or not')
     h.outside('quality of the GMRES step; convergence; IEEE rounding')
@@ -1023,15 +1096,20 @@ def o5_bco(h):
         c.prove('with_precond' if wp else 'no_precond', spec, cap=150)
 
 
-class BoundDriverObjective:
+class BoundDriverObjective(_PublicState):
+    """public state of a BoundConstrainedObjective for the driver: p, scaling / invScaling (symbolic), lam, kappa,
+    constraintKappa, constrainedIndices; reset_kappa / update_precond are logged"""
+
     def __init__(self, ex, n, log):
         self.p = 'P_OLD'
         self.scaling = ex.vec('scaling', n)
         self.invScaling = ex.vec('invScaling', n)
         self.log = log
-
-    def reset_kappa(self):
-        self.log.append(('reset_kappa', None, self.p))
+        self.constrainedIndices = onp.arange(n)
+        self.lam = ex.vec('lam', n)
+        self.kappa = ex.vec('kappa', n)
+        self.constraintKappa = ex.vec('constraintKappa', n)
+        self.kappa_before = onp.array(self.kappa)
 
     def update_precond(self, x):
         self.log.append(('update_precond', onp.array(x), self.p))
@@ -1085,6 +1163,7 @@ def make_bound_driver_harness(useWarmStart, updatePrecond, n=2):
             if w[2] is not None:
                 ex.goal('points_passed_along_the_call_sequence', Eq(px.unwrap(e[1]), px.unwrap(w[2])), info=w[0])
         ex.goal('penalties_reset_before_anything_else', Holds(log[0][0] == 'reset_kappa'))
+        ex.goal('penalties_are_the_construction_penalties_at_al_entry', Eq(px.unwrap(onp.asarray(obj.kappa)), px.unwrap(obj.constraintKappa)))
         ex.goal('new_parameters_installed_before_al_solve', Holds(obj.p is pNew and [e for e in log if e[0] == 'al_solve'][0][2] is pNew))
         kw = seen['kw']
         ex.goal('al_solve_gets_objective_parameters_settings_callbacks_and_solver', Holds(seen['obj'] is obj and seen['p'] is pNew and seen['alS'] == 'ALSETTINGS' and seen['subS'] == 'SUBSETTINGS'
@@ -1146,7 +1225,7 @@ def _o6_fns():
     return _O6
 
 
-class RealBoundObjective:
+class RealBoundObjective(_PublicState):
     """PX-side handle on the real BoundConstrainedObjective: lam / kappa / p are attributes (as on the real class); every
     method evaluates the jaxpr of the real method on the current symbolic state (JX inside PX), or the real jitted method
     on floats in a replay"""
@@ -1159,7 +1238,7 @@ class RealBoundObjective:
         self.mark_total = 0
         self.p = p
         lam0, kap0, sc, inv, ck = self._call('init', x0, p)
-        self.lam, self.kappa = lam0, kvec(kap0)
+        self.lam, self.kappa = lam0, kap0
         self.scaling, self.invScaling = sc, inv
         self.constraintKappa = onp.array(kap0)
         self.trace = []
@@ -1202,10 +1281,16 @@ class RealBoundObjective:
         return self._call('total_residual', x, self.p, self.lam, self.kappa)
 
     def reset_kappa(self):
-        self.kappa = kvec(onp.array(self.constraintKappa))
+        self.kappa = onp.array(self.constraintKappa)
 
     def update_precond(self, x):
         self.trace.append('update_precond')
+
+    def apply_precond(self, vx):
+        return vx
+
+    def check_stability(self, x):
+        pass
 
 
 def make_convex_harness(max_iters, with_failure):
